@@ -56,6 +56,20 @@ impl CorpusCfg {
     }
 }
 
+/// Two-edge structures (next / one; plain, @optional, @fold, @recurse; bare and with an output)
+/// as seeds + up to `k` deviations restricted to `kinds`. Tag bookkeeping across scopes (sibling
+/// folds importing the same tag, nested-then-sibling folds, tags from optional scopes) needs the
+/// edges to exist first; from the plain skeleton these shapes are 4+ deviations away.
+pub fn structures_cfg(uni: &Universe, k: usize, kinds: Vec<&'static str>, tag_menu_cap: usize) -> CorpusCfg {
+    let sm = &uni.world.schema;
+    let cfg_e = GenCfg { allow: Some(vec!["E"]), e_names: Some(vec!["next", "one"]), e_contents: vec![0, 1], recurse_depths: vec![2], naming_devs: false, ..Default::default() };
+    let structures: Vec<Query> = qgen::enumerate(sm, &[qgen::skeleton()], 2, &cfg_e).into_iter().skip(2).flatten().collect();
+    let mut cfg = CorpusCfg::new(k);
+    cfg.seeds = structures;
+    cfg.gen = GenCfg { allow: Some(kinds), naming_devs: false, tag_menu_cap, ..Default::default() };
+    cfg
+}
+
 pub struct CompiledQuery {
     pub q: Query,
     pub text: String,
